@@ -25,6 +25,19 @@ def flat(x):
     return [int(v) for v in np.asarray(x).reshape(-1)]
 
 
+class FakeComm:
+    """stand-in for an mpi4py communicator: one rank of `size`; the reduction hands back the rank's own partial sum"""
+    def __init__(self, rank, size):
+        self.rank, self.size = rank, size
+
+    def Allreduce(self, send, recv):
+        recv[...] = send
+
+    def Reduce(self, send, recv, root=0):
+        if recv is not None:
+            recv[...] = send
+
+
 def one_case(run, ct, rng, net, ssa, plan, tlc_values, route=None):
     desc = {"net": net.to_json(), "ssa": [list(p) for p in ssa], "plan": plan}
     if route is not None:
@@ -55,6 +68,14 @@ def one_case(run, ct, rng, net, ssa, plan, tlc_values, route=None):
                     chunks_nokey = [np.asarray(ch) for ch in tree.gen_output_chunks(arrays, progbar=True)]
             else:
                 chunks_nokey = [np.asarray(ch) for ch in tree.gen_output_chunks(arrays)]
+            # the slices distributed over MPI ranks (stand-in communicator: every rank is run in turn, the partial results
+            # are summed here): every slice number must be computed by exactly one rank
+            mpi = None
+            if not any(ix in net.output for ix, pr_ in plan) and rng.random() < 0.6:
+                mult = int(tree.multiplicity)
+                nproc = rng.randint(1, max(1, min(mult, 5)))
+                parts = [np.asarray(tree.contract_mpi(arrays, comm=FakeComm(rk, nproc))) for rk in range(nproc)]
+                mpi = (nproc, sum(parts[1:], parts[0]))
     except Exception as e:
         run.violation(f"slicing API raised {core.exc_text(e)} eq={net.eq()} dims={net.dims} ssa={ssa} plan={plan}",
                       desc, tags=["raised"])
@@ -73,6 +94,11 @@ def one_case(run, ct, rng, net, ssa, plan, tlc_values, route=None):
             if g.shape != full.shape or not np.array_equal(g, full):
                 bad = f"{nm} result differs from the contraction (shape {g.shape} vs {full.shape})"
                 break
+    if bad is None and mpi is not None:
+        # (a scalar result comes back with shape (1,): numpy's asfortranarray makes the reduction buffer at least 1-d)
+        got_mpi = mpi[1].reshape(full.shape) if mpi[1].size == full.size and full.ndim == 0 else mpi[1]
+        if got_mpi.shape != full.shape or not np.array_equal(got_mpi, full):
+            bad = f"contract_mpi over {mpi[0]} ranks: the sum of the ranks' partial results differs from the contraction"
     if bad is None:
         for (ch, key), ch2 in zip(chunks, chunks_nokey):
             want = nets.refeval(net, arrays, fix={**proj, **key})
